@@ -53,7 +53,11 @@ TS2SReplay ==
 SessIdx(s) == CHOOSE i \in 0..Len(sess) : (i > 0 /\ SessId(i) = s) \/ (i = 0 /\ \A j \in 1..Len(sess) : SessId(j) # s)
 TokIdx(t) == CHOOSE i \in 0..Len(tokens) : (i > 0 /\ TokId(i) = t) \/ (i = 0 /\ \A j \in 1..Len(tokens) : TokId(j) # t)
 
-TAuthorize == IsEvent("authorize") /\ Authorize(Ev.client, Ev.def)
+\* refused: only conformant for a scope nothing is configured for; opened although the model refuses: reconstructed
+TAuthorize == /\ IsEvent("authorize")
+              /\ LET d == SetOf(Ev.d) IN
+                 \/ Ev.res = "ok" /\ AuthorizeDo(Ev.client, Ev.def, d, TRUE)
+                 \/ Ev.res = "refused" /\ d \cap ScopeDefects # {} /\ AuthorizeDo(Ev.client, Ev.def, d, FALSE)
 
 TAuthzResp ==
         /\ IsEvent("authzresp")
